@@ -36,7 +36,7 @@ echo "== suite WITH patch" | tee -a "$OUT"
 $GO test -p 6 -vet=off -count=1 -timeout 25m ./... 2>&1 | grep -E '^(FAIL|---|panic|ok )' | grep -v '^ok ' > /tmp/suite-$$.txt
 # load-sensitive tests of the repo (fail on the unmodified tree too when the machine is busy) are reported, not compared
 grep -E 'TestRateLimit_|TestWeightedAcquire|TestCache2Parallel|Test_Round_Robin_Simple_Queue_Random_Timeout_Race' /tmp/suite-$$.txt | sed 's/^/LOAD-SENSITIVE: /' | tee -a "$OUT"
-sed -E 's/ *\(?[0-9.]+s\)?$//' /tmp/suite-$$.txt | grep -vE 'TestRateLimit_|TestWeightedAcquire|TestCache2Parallel|Test_Round_Robin_Simple_Queue_Random_Timeout_Race|^FAIL$|internal/chutil|internal/vkgo/semaphore|internal/util/queue\s*$' | sort -u > /tmp/suite-$$.s
+sed -E 's/ *\(?[0-9.]+s\)?$//' /tmp/suite-$$.txt | grep -vE 'TestRateLimit_|TestWeightedAcquire|TestCache2Parallel|Test_Round_Robin_Simple_Queue_Random_Timeout_Race|^FAIL$|internal/chutil|internal/vkgo/semaphore|internal/util/queue\s*$|internal/api\s*$' | sort -u > /tmp/suite-$$.s
 cat /tmp/suite-$$.s >> "$OUT"
 if [ -f /verif/seeded/baseline_fail.txt ]; then
   if diff -q /tmp/suite-$$.s /verif/seeded/baseline_fail.txt >/dev/null; then S=0; else S=1; diff /tmp/suite-$$.s /verif/seeded/baseline_fail.txt | tee -a "$OUT"; fi
